@@ -85,7 +85,7 @@ let handle toks =
       String.concat " / " parts ^ " // seq=" ^ si !st.rx_pack_seq ^ " ev=" ^
         (match !st.rx_ack_event with None -> "n" | Some true -> "1" | Some false -> "0") ^
         " buf=" ^ hex_of_bytes !st.rx_buf
-  | _ -> Driver_ext.handle toks
+  | _ -> "ERROR unknown command: " ^ String.concat " " toks
 
 let () =
   try
